@@ -50,7 +50,7 @@ BUDGET = {"quick": 3000, "thorough": 90000}
 # one case costs 80-200 ms (3 + up to 7 calls of ~13 ms each): no shrinking in the quick tier (the driver keeps the
 # smallest failing case over the 16 shards); the thorough tier shrinks, bounded by the wall cap
 SHRINK = {"quick": False, "thorough": True}
-WALL_CAP = {"quick": 420, "thorough": 3000}
+WALL_CAP = {"quick": 900, "thorough": 3600}
 
 IDX_COLS = ["peak_time_idx", "trough_time_idx", "tip_time_idx", "half_peak_post_time_idx",
             "half_peak_pre_time_idx", "recovery_time_idx"]
